@@ -879,7 +879,7 @@ func (m *Machine) opRestore(t *rapid.T) bool {
 	var want []world.SignedRec
 	kinds := map[string]int{}
 	for i := 0; i < n; i++ {
-		kind := rapid.SampledFrom([]string{"signed", "signed", "signed_wrong_fields", "unsigned", "repeat", "malformed"}).Draw(t, "rs_kind")
+		kind := rapid.SampledFrom([]string{"signed", "signed", "signed_wrong_fields", "unsigned", "refused", "repeat", "malformed"}).Draw(t, "rs_kind")
 		if (kind == "signed" || kind == "signed_wrong_fields" || kind == "repeat") && len(w.M.SignedOrder) == 0 {
 			kind = "unsigned"
 		}
@@ -903,6 +903,20 @@ func (m *Machine) opRestore(t *rapid.T) bool {
 			if r, ok := w.M.Signed[prev.B_]; ok {
 				want = append(want, r)
 			}
+		case "refused":
+			// an output of a request the mint refused: nothing was handed out for it, so nothing may be restorable
+			var cand []cashu.BlindedMessage
+			for _, bm := range w.M.Refused {
+				if _, ok := w.M.Signed[bm.B_]; !ok {
+					cand = append(cand, bm)
+				}
+			}
+			if len(cand) == 0 {
+				kind = "unsigned"
+				msgs = append(msgs, cashu.BlindedMessage{Amount: 1, B_: m.randomPointHex(t, "rs_pt"), Id: w.ActiveID})
+				break
+			}
+			msgs = append(msgs, cand[rapid.IntRange(0, len(cand)-1).Draw(t, "rs_refused")])
 		case "unsigned":
 			msgs = append(msgs, cashu.BlindedMessage{Amount: 1, B_: m.randomPointHex(t, "rs_pt"), Id: w.ActiveID})
 		case "malformed":
@@ -944,6 +958,9 @@ func (m *Machine) opRestore(t *rapid.T) bool {
 	}
 	if kinds["signed"]+kinds["signed_wrong_fields"] > 0 && kinds["unsigned"]+kinds["malformed"] > 0 {
 		m.Count["restore_mixed"]++
+	}
+	if kinds["refused"] > 0 {
+		m.Count["restore_of_refused_output"]++
 	}
 	m.logf("restore %d outputs %v: %d signatures", len(msgs), kinds, len(sigs))
 	return true
@@ -1135,7 +1152,8 @@ func (m *Machine) opLockedMint(t *rapid.T) bool {
 	if payments > issuances {
 		m.Count["nut20_on_paid_"+tamper]++
 		if strings.HasPrefix(tamper, "honest") {
-			if err != nil {
+			// a quote that was paid twice (externally and by an internal melt) need not issue twice
+			if err != nil && issuances == 0 {
 				m.honestFail("locked_mint_"+tamper, err)
 			}
 		} else {
